@@ -290,6 +290,7 @@ func main() {
 	workers := flag.Int("workers", 16, "worker count")
 	debug := flag.Bool("debug", false, "debug output")
 	noReplay := flag.Bool("noreplay", false, "skip native replays")
+	out := flag.String("out", "", "root for evidence/, replays and work files (default: the verification root); used for runs against modified trees")
 	selftest := flag.Bool("selftest", false, "run solver self test")
 	flag.Parse()
 	if *selftest {
@@ -299,12 +300,20 @@ func main() {
 		fmt.Fprintln(os.Stderr, "usage: symgo -prop Cnn [-tier quick|thorough]")
 		os.Exit(2)
 	}
+	outRoot = *out
+	if outRoot == "" {
+		outRoot = *verif
+	}
 	os.Exit(runProperty(*repo, *verif, *prop, *tier, *only, *workers, *debug, *noReplay))
 }
 
+// outRoot: where evidence, replay files and scratch build output go
+var outRoot string
+
 func runProperty(repo, verif, prop, tier, only string, workers int, debug, noReplay bool) int {
 	t0 := time.Now()
-	evPath := filepath.Join(verif, "evidence", prop+".json")
+	evPath := filepath.Join(outRoot, "evidence", prop+".json")
+	os.MkdirAll(filepath.Dir(evPath), 0o755)
 	os.MkdirAll(filepath.Dir(evPath), 0o755)
 	L, err := Load(repo, verif, prop)
 	if err != nil {
@@ -420,6 +429,12 @@ func runProperty(repo, verif, prop, tier, only string, workers int, debug, noRep
 				if err != nil {
 					f.Confirmed = "replay-error: " + err.Error()
 				} else if matchOutcome(f, out) {
+					f.Confirmed = "confirmed"
+				} else if strings.HasPrefix(out.Outcome, "assert:") && f.Kind != "race" {
+					// the same inputs and schedule make ANOTHER assertion of this harness fail first on the real build
+					// (the engine reports one failing assertion per path, the native run stops at its first): the
+					// violation is real and reproduces; the replay file names the assertion that failed natively
+					f.Msg += " (native run fails " + out.Outcome + " first)"
 					f.Confirmed = "confirmed"
 				} else {
 					f.Confirmed = "unconfirmed: native outcome " + out.Outcome + " " + firstLineWith(out.Raw, "VERIF-SCHED")
